@@ -161,6 +161,11 @@ func TestMeasureRandom(t *testing.T) {
 		fold := func(ys []smp) J {
 			sw := measurements.NewDefaultImmutableSampleWindow()
 			first := sw
+			defer func() {
+				if len(heldWindows) < 6 && len(ys) > 0 {
+					heldWindows = append(heldWindows, heldWindow{k, sw, windowSummary(sw)})
+				}
+			}()
 			for _, y := range ys {
 				if y.drop {
 					sw = sw.AddDroppedSample(-1, y.inflight)
@@ -195,4 +200,34 @@ func TestMeasureRandom(t *testing.T) {
 		}
 		w.write(J{"ev": "Window", "trace": k, "samples": samples, "a": fold(xs), "b": fold(perm)})
 	}
+	// windows are values: the ones kept from the first sequences still say what they said, after everything that was added
+	// to other windows since (and a few thousand samples more on a chain of its own)
+	churn := measurements.NewDefaultImmutableSampleWindow()
+	for i := 0; i < 5000; i++ {
+		if i%7 == 0 {
+			churn = churn.AddDroppedSample(-1, 90+i%9)
+		} else {
+			churn = churn.AddSample(-1, int64(5+i%11), 90+i%9)
+		}
+	}
+	for _, h := range heldWindows {
+		w.write(J{"ev": "WindowHeld", "trace": h.trace, "before": h.was, "after": windowSummary(h.w)})
+	}
+	heldWindows = nil
+}
+
+type heldWindow struct {
+	trace int
+	w     *measurements.ImmutableSampleWindow
+	was   J
+}
+
+var heldWindows []heldWindow
+
+func windowSummary(sw *measurements.ImmutableSampleWindow) J {
+	mn := int(sw.CandidateRTTNanoseconds())
+	if sw.CandidateRTTNanoseconds() == math.MaxInt64 {
+		mn = -1
+	}
+	return J{"min": mn, "avg": int(sw.AverageRTTNanoseconds()), "count": sw.SampleCount(), "maxin": sw.MaxInFlight(), "drop": sw.DidDrop()}
 }
